@@ -1,5 +1,6 @@
 """C16 — posterior resampling follows the posterior weights (structural oracle + exact binomial frequency bounds)."""
 import math
+import os
 
 import numpy as np
 
@@ -205,6 +206,79 @@ def long_vector(seed, n_case, counts):
     return dict(n=n_case, cls="long", size=n, problems=probs, kept=len(idx), expected=float(mu), bound=float(t))
 
 
+def sampler_level(case):
+    """The samplers' own wrappers around draw_posterior_samples: requested size, membership, default size, for every documented method name."""
+    assert_repo()
+    import shutil
+    from vlib.runs import std_kwargs, ins_kwargs, quiet_logging, reset_globals
+    from vlib import zoo
+    from nessai.flowsampler import FlowSampler
+    from nessai.utils.stats import effective_sample_size
+
+    quiet_logging()
+    reset_globals()
+    probs, counts = [], dict(wrapper_calls=0)
+    out = case["outdir"]
+    shutil.rmtree(out, ignore_errors=True)
+    names = None
+
+    def rows(a):
+        return {tuple(float(r[n]) for n in names) + (float(r["logL"]),) for r in a}
+
+    try:
+        if case["sampler"] == "ins":
+            model = zoo.make("G2u")
+            names = list(model.names)
+            fs = FlowSampler(model, output=out, resume=False, importance_nested_sampler=True, signal_handling=False, **ins_kwargs(dict(seed=case["seed"], max_iteration=6)))
+            fs.run(plot=False, save=False)
+            ns = fs.ns
+            for final in (True, False):
+                pool = ns.final_samples if (final and ns.final_samples_unit is not None) else ns.samples
+                lw = np.asarray((ns.final_state if (final and ns.final_samples_unit is not None) else ns.state).log_posterior_weights, dtype=float)
+                ess = effective_sample_size(lw)
+                members = rows(pool)
+                for method in ("multinomial_resampling", "importance_sampling"):
+                    for n in (1, 37, int(2 * ess) + 3, None):
+                        counts["wrapper_calls"] += 1
+                        post = ns.draw_posterior_samples(sampling_method=method, n=n, use_final_samples=final)
+                        want = int(ess) if n is None else n
+                        if len(post) != want:
+                            probs.append((f"ins-wrapper:{method}:size", dict(requested=n, returned=len(post), int_ess=int(ess), use_final_samples=final)))
+                        if not rows(post) <= members:
+                            probs.append((f"ins-wrapper:{method}:not-elements-of-the-samples", dict(requested=n)))
+                counts["wrapper_calls"] += 1
+                post = ns.draw_posterior_samples(sampling_method="rejection_sampling", use_final_samples=final)
+                if not rows(post) <= members:
+                    probs.append(("ins-wrapper:rejection_sampling:not-elements-of-the-samples", ""))
+                best = pool[int(np.argmax(lw))]
+                if (tuple(float(best[n]) for n in names) + (float(best["logL"]),)) not in rows(post):
+                    probs.append(("ins-wrapper:rejection_sampling:maximum-weight-sample-missing", ""))
+        else:
+            model = zoo.make("G2u")
+            names = list(model.names)
+            method, n = case["method"], case["n"]
+            fs = FlowSampler(model, output=out, resume=False, signal_handling=False, **std_kwargs(dict(seed=case["seed"], nlive=50)))
+            fs.run(plot=False, save=False, posterior_sampling_method=method)   # the standard sampler's run() has no size argument: int(ESS) draws
+            counts["wrapper_calls"] += 1
+            nested = np.array(fs.ns.nested_samples)
+            lw = np.asarray(fs.ns.state.log_posterior_weights, dtype=float)
+            ess = effective_sample_size(lw)
+            post = fs.posterior_samples
+            if not rows(post) <= rows(nested):
+                probs.append((f"std-wrapper:{method}:not-elements-of-the-nested-samples", ""))
+            if method != "rejection_sampling":
+                want = int(ess) if n is None else n
+                if len(post) != want:
+                    probs.append((f"std-wrapper:{method}:size", dict(requested=n, returned=len(post), int_ess=int(ess))))
+    except Exception as e:
+        import traceback
+
+        probs.append(("sampler-level:exception:" + type(e).__name__, traceback.format_exc()[-500:]))
+    finally:
+        shutil.rmtree(out, ignore_errors=True)
+    return dict(problems=probs, counts=counts)
+
+
 def worker(case):
     assert_repo()
     counts = dict(ess=0, rejection_calls=0, multinomial_calls=0)
@@ -234,6 +308,9 @@ def main():
     R = 4000 if chk.quick else 40000
     if chk.replay_case:
         c = chk.replay_case["case"]
+        if c.get("kind") == "w":
+            print(sampler_level(dict(c["case"], outdir=os.path.join(chk.scratch, "replay"))))
+            return
         print(worker(dict(items=[(c["kind"], c["n"])], seed=chk.replay_case["seed"], R=R)))
         return
     items = [("s", i) for i in range(1500 if chk.quick else 12000)] + [("f", i) for i in range(40 if chk.quick else 200)] + \
@@ -259,15 +336,36 @@ def main():
                           sample={k: v for k, v in x.items() if k != "problems"} if (x["kind"] != "s" and x["n"] < 2) or x["n"] == 7 else None)
             for p in x["problems"]:
                 chk.violation("C16:" + str(p[0]), f"{x['kind']}-case #{x['n']} class={x['cls']} size={x['size']}: {p}", dict(kind=x["kind"], n=x["n"]))
+    # ---- the samplers' own wrappers (every documented method name, explicit and default sizes)
+    import os
+
+    scases = [dict(sampler="ins", seed=int(rng_for(chk.seed, "C16", "ins", k).integers(1, 2**31 - 1)), outdir=os.path.join(chk.scratch, f"ins-{k}")) for k in range(1 if chk.quick else 6)]
+    k = 0
+    for method in ("multinomial_resampling", "importance_sampling", "rejection_sampling"):
+        for n in ((None,) if chk.quick else (None, None)):
+            scases.append(dict(sampler="std", method=method, n=n, seed=int(rng_for(chk.seed, "C16", "std", k).integers(1, 2**31 - 1)), outdir=os.path.join(chk.scratch, f"std-{k}")))
+            k += 1
+    for c, r in zip(scases, run_cases(scases, "checks.c16:sampler_level", chk.scratch, nproc=chk.args.nproc, timeout=400)):
+        small = {kk: v for kk, v in c.items() if kk != "outdir"}
+        if "problems" not in r:
+            chk.note_inconclusive(f"sampler-level {small}: {str(r)[:300]}")
+            chk.case_done()
+            continue
+        chk.merge_counters(r["counts"])
+        chk.count("sampler_level_cases")
+        chk.case_done(ident=("wrapper", str(small)), nontrivial=True, sample=dict(sampler_level=small, wrapper_calls=r["counts"]["wrapper_calls"]) if c["sampler"] == "ins" else None)
+        for p in r["problems"]:
+            chk.violation("C16:" + str(p[0]), f"sampler-level case {small}: {p}", dict(kind="w", case=small))
     chk.extra["worst_margin"] = f"closest any frequency count came to its exact binomial bound, as a fraction of the half-width: {worst:.3f}"
     chk.extra["repetitions_per_frequency_case"] = R
     chk.assumptions += ["frequency decisions use exact binomial bounds at 1e-9 split over all (entry, method, case) decisions", "numpy's global RNG is seeded per case"]
     chk.finish("weight-vector classes {equal, one dominant, geometric, with -inf, shifted +-1e5, 1e-300 dynamic range, random} x lengths {1,2,3,10,50,300,1000,1e5}: "
                "structural oracle on every call (samples == nested[indices], index range, strictly increasing rejection indices, arg-max present, -inf absent, "
                "multinomial length == requested or int(ESS)), ESS range and shift invariance; frequency cases repeat the draw R times and compare per-entry counts "
-               "with exact binomial bounds; long vectors use a Bernstein bound on the total kept. Non-trivial = vector of length >= 2 (or any frequency case); "
+               "with exact binomial bounds; long vectors use a Bernstein bound on the total kept; the samplers' own wrappers (INS draw_posterior_samples with both sample sets, "
+               "FlowSampler.run(posterior_sampling_method=, n_posterior_samples=)) are called on real runs for every documented method name with explicit and default sizes. Non-trivial = vector of length >= 2 (or any frequency case); "
                "distinct by (kind, class, size, case number).",
-               require_observed=["rejection_calls", "multinomial_calls", "ess", "frequency_cases"])
+               require_observed=["rejection_calls", "multinomial_calls", "ess", "frequency_cases", "wrapper_calls"])
 
 
 if __name__ == "__main__":
